@@ -35,6 +35,8 @@ import (
 	"path/filepath"
 	"sort"
 	"strings"
+
+	"verifharness/skel"
 )
 
 const modPath = "github.com/ipfs/ipfs-cluster"
@@ -408,6 +410,7 @@ type lock struct {
 
 type access struct {
 	holdID int // id of the hold of the designated mutex on the same base, 0 if none
+	param  int // 0: direct access to guards[guard]; i+1: through formal parameter i (guard = -1)
 	fn    string
 	guard int
 	write bool
@@ -419,11 +422,46 @@ type access struct {
 
 type edge struct{ from, to, fn string }
 
+type argBind struct {
+	param     int    // callee parameter index
+	fromParam int    // >= 0: the caller's own formal alias of that index is passed on; -1: a guarded field is passed directly
+	guard     int    // guard index (fromParam < 0)
+	base      string // base expression of the guarded field in the caller (fromParam < 0)
+}
+
 type callRec struct {
 	fn      string
 	callees []string // candidate function keys
 	held    []lock
+	recv    string   // printed receiver expression ("" for plain functions)
+	args    []string // printed argument expressions ("" = not a simple path)
+	binds   []argBind
+	pos     int
+	deferCl bool // synthetic edge: function -> its deferred closure
 }
+
+type fnInfo struct {
+	recv     string
+	params   []string
+	exported bool
+}
+
+type escape struct {
+	fn    string
+	guard int
+	kind  string // value | copy | ownlock | payload | raw
+	pos   int
+	what  string
+}
+
+// element types that are never written after they were stored into a guarded structure (trusted, listed in the notes)
+var immutablePayload = map[string]bool{"api.Metric": true, "Metric": false}
+
+var (
+	fnInfos     = map[string]*fnInfo{}
+	usedAsValue = map[string]bool{}
+	escapes     []escape
+)
 
 // atomic groups: fields of one object that are written together in one critical section and
 // must be read together (one critical section) by the functions that build a snapshot of them.
@@ -475,8 +513,18 @@ func guardedName(pk, field string) bool {
 }
 
 type alias struct {
-	guard int
+	guard int // >= 0: index into guards; <= -2: formal parameter -(guard+2) of the analysed function (bound at call sites)
 	base  string
+}
+
+func formalGuard(i int) int { return -(i + 2) }
+func isFormal(gi int) bool  { return gi <= -2 }
+func formalIdx(gi int) int  { return -gi - 2 }
+func gDeep(gi int) bool {
+	if gi < 0 {
+		return true
+	}
+	return guards[gi].deep
 }
 
 type fctx struct {
@@ -484,6 +532,8 @@ type fctx struct {
 	fn      string
 	env     map[string]*T
 	aliases map[string]alias
+	results []*T           // declared result types of the function (literal) being analysed
+	derived map[string]int // locals holding references taken out of a guarded structure (not aliases into it): name -> guard
 	held    []lock
 	loops   [][]lock
 	pos     int
@@ -870,6 +920,12 @@ func guardedAnywhere(field string) bool {
 }
 
 func (c *fctx) record(gi int, base string, write bool, what string) {
+	if isFormal(gi) {
+		// access through a formal parameter: an obligation only in calling contexts that bind the parameter to guarded data
+		c.pos++
+		accesses = append(accesses, access{param: formalIdx(gi) + 1, fn: c.fn, guard: -1, write: write, base: "", held: copyLocks(c.held), pos: c.pos, what: what})
+		return
+	}
 	touches[c.fn] = true
 	c.pos++
 	hid := 0
@@ -894,10 +950,9 @@ func (c *fctx) lhs(e ast.Expr) {
 	}
 	gi, base, steps, ok := c.rootGuard(e)
 	if ok {
-		g := guards[gi]
 		if steps == 0 {
 			c.record(gi, base, true, "assign "+c.str(e))
-		} else if g.deep {
+		} else if gDeep(gi) {
 			c.record(gi, base, true, "assign through "+c.str(e))
 		} else {
 			c.record(gi, base, false, "read for "+c.str(e))
@@ -953,6 +1008,11 @@ func (c *fctx) expr(e ast.Expr) {
 		if a, ok := c.aliases[x.Name]; ok {
 			c.record(a.guard, a.base, false, "alias "+x.Name)
 		}
+		if _, isLocal := c.env[x.Name]; !isLocal {
+			if _, ok := c.p.funcs[x.Name]; ok {
+				usedAsValue[c.p.dir+"|"+x.Name] = true // a function used as a value can be called from anywhere
+			}
+		}
 	case *ast.BasicLit:
 	case *ast.ParenExpr:
 		c.expr(x.X)
@@ -962,6 +1022,7 @@ func (c *fctx) expr(e ast.Expr) {
 			c.expr(x.X)
 			return
 		}
+		c.methodValue(x)
 		c.expr(x.X)
 	case *ast.IndexExpr:
 		c.expr(x.X)
@@ -978,7 +1039,7 @@ func (c *fctx) expr(e ast.Expr) {
 			if gi, base, steps, ok := c.rootGuard(x.X); ok {
 				if _, isComposite := x.X.(*ast.CompositeLit); !isComposite {
 					c.record(gi, base, false, "address-of "+c.str(x.X))
-					if steps == 0 || guards[gi].deep {
+					if !isFormal(gi) && (steps == 0 || guards[gi].deep) {
 						c.problem("address of guarded data taken: &%s", c.str(x.X))
 					}
 				}
@@ -1021,6 +1082,20 @@ func (c *fctx) expr(e ast.Expr) {
 func (c *fctx) closure(fl *ast.FuncLit, held []lock, suffix string) {
 	saveHeld, saveLoops := c.held, c.loops
 	saveFn := c.fn
+	saveRes := c.results
+	c.results = nil
+	if fl.Type.Results != nil {
+		for _, f := range fl.Type.Results.List {
+			k := len(f.Names)
+			if k == 0 {
+				k = 1
+			}
+			for i := 0; i < k; i++ {
+				c.results = append(c.results, &T{c.p.dir, f.Type})
+			}
+		}
+	}
+	defer func() { c.results = saveRes }()
 	if suffix != "" {
 		c.nclos++
 		c.fn = fmt.Sprintf("%s$%s%d", saveFn, suffix, c.nclos)
@@ -1047,6 +1122,7 @@ func (c *fctx) bindFields(fl *ast.FieldList) {
 		for _, n := range f.Names {
 			c.env[n.Name] = &T{c.p.dir, f.Type}
 			delete(c.aliases, n.Name)
+			delete(c.derived, n.Name)
 		}
 	}
 }
@@ -1146,7 +1222,7 @@ func (c *fctx) call(x *ast.CallExpr) {
 		case "delete":
 			if len(x.Args) == 2 {
 				if gi, base, _, ok := c.rootGuard(x.Args[0]); ok {
-					if guards[gi].deep {
+					if gDeep(gi) {
 						c.record(gi, base, true, "delete from "+c.str(x.Args[0]))
 					} else {
 						c.record(gi, base, false, "delete through "+c.str(x.Args[0]))
@@ -1175,9 +1251,24 @@ func (c *fctx) call(x *ast.CallExpr) {
 		c.expr(a)
 	}
 	keys, unresolved := c.callees(x)
+	cr := callRec{fn: c.fn, held: copyLocks(c.held), pos: c.pos}
+	if f, ok := x.Fun.(*ast.SelectorExpr); ok {
+		cr.recv = c.simplePath(f.X)
+	}
+	for i, a := range x.Args {
+		cr.args = append(cr.args, c.simplePath(a))
+		if gi, base, _, ok := c.rootGuard(a); ok && gDeep(gi) {
+			if isFormal(gi) {
+				cr.binds = append(cr.binds, argBind{param: i, fromParam: formalIdx(gi)})
+			} else {
+				cr.binds = append(cr.binds, argBind{param: i, fromParam: -1, guard: gi, base: base})
+			}
+		}
+	}
 	if len(keys) > 0 {
-		calls = append(calls, callRec{fn: c.fn, callees: keys, held: copyLocks(c.held)})
-	} else if unresolved != "" && len(c.held) > 0 {
+		cr.callees = keys
+		calls = append(calls, cr)
+	} else if unresolved != "" {
 		if os.Getenv("EXTRACT_DEBUG") != "" {
 			fmt.Fprintf(os.Stderr, "unresolved call %s in %s\n", c.str(x), c.fn)
 		}
@@ -1194,7 +1285,8 @@ func (c *fctx) call(x *ast.CallExpr) {
 			cand = append(cand, ks...)
 		}
 		if len(cand) > 0 {
-			calls = append(calls, callRec{fn: c.fn, callees: cand, held: copyLocks(c.held)})
+			cr.callees = cand
+			calls = append(calls, cr)
 		}
 	}
 }
@@ -1208,10 +1300,11 @@ func (c *fctx) define(name string, t *T, rhs ast.Expr) {
 	c.env[name] = t
 	delete(c.aliases, name)
 	if rhs != nil {
-		if gi, base, _, ok := c.rootGuard(rhs); ok && guards[gi].deep && c.aliasType(gi, t) {
+		if gi, base, _, ok := c.rootGuard(rhs); ok && gDeep(gi) && c.aliasType(gi, t) {
 			c.aliases[name] = alias{gi, base}
 		}
 	}
+	c.taintLocal(name, t, rhs)
 	// a held lock whose base mentions this identifier can no longer be matched
 	for _, h := range c.held {
 		if h.base == name || strings.HasPrefix(h.base, name+".") {
@@ -1233,6 +1326,9 @@ func (c *fctx) aliasType(gi int, t *T) bool {
 	switch u.e.(type) {
 	case *ast.MapType, *ast.ArrayType:
 		return true
+	}
+	if isFormal(gi) {
+		return false
 	}
 	g := guards[gi]
 	if ts := pkgs[g.pkg].types[g.typ]; ts != nil {
@@ -1274,6 +1370,9 @@ func (c *fctx) assign(s *ast.AssignStmt) {
 		id, isIdent := l.(*ast.Ident)
 		if !isIdent {
 			c.lhs(l)
+			if len(s.Lhs) == len(s.Rhs) {
+				c.store(l, s.Rhs[i])
+			}
 			continue
 		}
 		var t *T
@@ -1286,6 +1385,9 @@ func (c *fctx) assign(s *ast.AssignStmt) {
 				rs := c.callResults(call)
 				if i < len(rs) {
 					t = rs[i]
+				}
+				if i == 0 {
+					rhs = s.Rhs[0] // the first result carries the value (v, err := f(...))
 				}
 			} else if i == 0 {
 				rhs = s.Rhs[0]
@@ -1301,10 +1403,11 @@ func (c *fctx) assign(s *ast.AssignStmt) {
 			delete(c.aliases, id.Name)
 			if rhs != nil {
 				lt := c.env[id.Name]
-				if gi, base, _, ok := c.rootGuard(rhs); ok && guards[gi].deep && c.aliasType(gi, lt) {
+				if gi, base, _, ok := c.rootGuard(rhs); ok && gDeep(gi) && c.aliasType(gi, lt) {
 					c.aliases[id.Name] = alias{gi, base}
 				}
 			}
+			c.taintLocal(id.Name, c.env[id.Name], rhs)
 			for _, h := range c.held {
 				if h.base == id.Name || strings.HasPrefix(h.base, id.Name+".") {
 					c.problem("identifier %s reassigned while %s of it is held", id.Name, h.key)
@@ -1382,6 +1485,7 @@ func (c *fctx) stmt(s ast.Stmt) (terminated bool) {
 	case *ast.SendStmt:
 		c.expr(s.Chan)
 		c.expr(s.Value)
+		c.escapeOf(s.Value, "send "+c.str(s.Value), nil)
 	case *ast.IncDecStmt:
 		c.expr(s.X)
 		c.lhs(s.X)
@@ -1446,6 +1550,7 @@ func (c *fctx) stmt(s ast.Stmt) (terminated bool) {
 				c.expr(a)
 			}
 			c.closure(fl, dh, "defer")
+			calls = append(calls, callRec{fn: c.fn, callees: []string{fmt.Sprintf("%s$defer%d", c.fn, c.nclos)}, deferCl: true, pos: c.pos})
 		} else {
 			// arguments are evaluated now, the call runs at function exit
 			if f, ok := s.Call.Fun.(*ast.SelectorExpr); ok {
@@ -1460,8 +1565,13 @@ func (c *fctx) stmt(s ast.Stmt) (terminated bool) {
 			}
 		}
 	case *ast.ReturnStmt:
-		for _, r := range s.Results {
+		for i, r := range s.Results {
 			c.expr(r)
+			var dt *T
+			if len(s.Results) == len(c.results) {
+				dt = c.results[i]
+			}
+			c.escapeOf(r, "return "+c.str(r), dt)
 		}
 		c.endOfFunc()
 		return true
@@ -1529,8 +1639,11 @@ func (c *fctx) stmt(s ast.Stmt) (terminated bool) {
 		}
 		if id, ok := s.Value.(*ast.Ident); ok {
 			c.define(id.Name, vt, nil)
-			if gi, base, _, ok := c.rootGuard(s.X); ok && guards[gi].deep && id.Name != "_" && c.aliasType(gi, vt) {
+			if gi, base, _, ok := c.rootGuard(s.X); ok && gDeep(gi) && id.Name != "_" && c.aliasType(gi, vt) {
 				c.aliases[id.Name] = alias{gi, base}
+			}
+			if id.Name != "_" {
+				c.taintLocal(id.Name, vt, s.X)
 			}
 		} else if s.Value != nil {
 			c.lhs(s.Value)
@@ -1634,6 +1747,288 @@ func (c *fctx) branches2(bodies [][]ast.Stmt, hasDefaultPath bool, what string, 
 	return t
 }
 
+// ---------------------------------------------------------------- interprocedural helpers
+
+// simplePath prints e when it is an identifier or a selector chain of identifiers, else "".
+func (c *fctx) simplePath(e ast.Expr) string {
+	switch x := e.(type) {
+	case *ast.Ident:
+		return x.Name
+	case *ast.ParenExpr:
+		return c.simplePath(x.X)
+	case *ast.SelectorExpr:
+		if b := c.simplePath(x.X); b != "" {
+			return b + "." + x.Sel.Name
+		}
+	}
+	return ""
+}
+
+// methodValue: `x.M` evaluated as a value (not in call position).
+func (c *fctx) methodValue(x *ast.SelectorExpr) {
+	if id, ok := x.X.(*ast.Ident); ok {
+		if _, isLocal := c.env[id.Name]; !isLocal {
+			if d, isImp := c.p.imports[id.Name]; isImp {
+				if d != "" {
+					if _, ok := pkgs[d].funcs[x.Sel.Name]; ok {
+						usedAsValue[d+"|"+x.Sel.Name] = true
+					}
+				}
+				return
+			}
+		}
+	}
+	bt := c.typeOf(x.X)
+	if bt == nil {
+		for _, d := range pkgDirs {
+			for k := range pkgs[d].methods {
+				if strings.HasSuffix(k, "."+x.Sel.Name) {
+					usedAsValue[d+"|"+k] = true
+				}
+			}
+		}
+		return
+	}
+	if pk, n, ok := named(bt); ok {
+		if _, ok := pkgs[pk].methods[n+"."+x.Sel.Name]; ok {
+			usedAsValue[pk+"|"+n+"."+x.Sel.Name] = true
+		}
+	}
+}
+
+// taintOf: does the value of e come out of a guarded structure? rooted = e denotes (part of) the structure itself.
+func (c *fctx) taintOf(e ast.Expr) (gi int, rooted bool, ok bool) {
+	if e == nil {
+		return -1, false, false
+	}
+	if g, _, _, ok := c.rootGuard(e); ok && gDeep(g) {
+		return g, true, true
+	}
+	gi = -1
+	ast.Inspect(e, func(n ast.Node) bool {
+		if gi != -1 {
+			return false
+		}
+		switch x := n.(type) {
+		case *ast.FuncLit:
+			return false
+		case *ast.Ident:
+			if a, ok := c.aliases[x.Name]; ok {
+				gi = a.guard
+			} else if g, ok := c.derived[x.Name]; ok {
+				gi = g
+			}
+		case *ast.SelectorExpr:
+			if g, _, ok := c.guardSelQuiet(x); ok && gDeep(g) {
+				gi = g
+			}
+		}
+		return true
+	})
+	return gi, false, gi != -1
+}
+
+func (c *fctx) guardSelQuiet(s *ast.SelectorExpr) (int, string, bool) {
+	if !guardedAnywhere(s.Sel.Name) {
+		return -1, "", false
+	}
+	bt := c.typeOf(s.X)
+	if bt == nil {
+		return -1, "", false
+	}
+	pk, n, ok := named(bt)
+	if !ok {
+		return -1, "", false
+	}
+	gi := guardIndex(pk, n, s.Sel.Name)
+	if gi < 0 {
+		return -1, "", false
+	}
+	return gi, c.str(s.X), true
+}
+
+// refKind classifies a type: "value" (copying it copies everything reachable that matters), "container" (map, slice,
+// array, channel), "pointer" (to a named struct: name returned), "unknown".
+func refKind(t *T) (kind string, elem *T, name string) {
+	if t == nil || t.e == externalT {
+		return "unknown", nil, ""
+	}
+	switch e := t.e.(type) {
+	case *ast.StarExpr:
+		return "pointer", nil, exprStr(e.X)
+	case *ast.MapType:
+		return "container", &T{t.pkg, e.Value}, ""
+	case *ast.ArrayType:
+		return "container", &T{t.pkg, e.Elt}, ""
+	case *ast.ChanType:
+		return "container", &T{t.pkg, e.Value}, ""
+	case *ast.InterfaceType, *ast.FuncType:
+		return "unknown", nil, ""
+	case *ast.Ident:
+		switch e.Name {
+		case "bool", "string", "int", "int8", "int16", "int32", "int64", "uint", "uint8", "uint16", "uint32", "uint64", "float32", "float64", "byte", "rune", "uintptr", "error":
+			return "value", nil, ""
+		}
+	}
+	u := underlying(t)
+	if u != nil && u.e != t.e {
+		switch u.e.(type) {
+		case *ast.StructType:
+			return "value", nil, exprStr(t.e)
+		case *ast.InterfaceType:
+			return "unknown", nil, ""
+		}
+		return refKind(u)
+	}
+	if isExternal(t) {
+		return "value", nil, exprStr(t.e) // named type of another package used by value (cid.Cid, peer.ID, time.Time)
+	}
+	return "unknown", nil, ""
+}
+
+func hasOwnLock(t *T, name string) bool {
+	pk, n, ok := named(t)
+	if !ok {
+		return false
+	}
+	for _, g := range guards {
+		if g.pkg == pk && g.typ == n && g.kind == kLocked {
+			return true
+		}
+	}
+	_ = name
+	return false
+}
+
+func classifyRef(t *T, rooted bool, depth int) string {
+	kind, elem, name := refKind(t)
+	switch kind {
+	case "value":
+		return "value"
+	case "pointer":
+		if hasOwnLock(t, name) {
+			return "ownlock"
+		}
+		if immutablePayload[name] {
+			return "payload"
+		}
+		return "raw"
+	case "container":
+		if rooted {
+			return "raw" // the guarded map / slice itself
+		}
+		if depth > 3 {
+			return "raw"
+		}
+		k := classifyRef(elem, false, depth+1)
+		if k == "value" {
+			return "copy"
+		}
+		return k
+	}
+	return "raw"
+}
+
+// taintLocal: a local assigned from guarded data that is not an alias into the structure.
+func (c *fctx) taintLocal(name string, t *T, rhs ast.Expr) {
+	delete(c.derived, name)
+	if rhs == nil {
+		return
+	}
+	if _, isAlias := c.aliases[name]; isAlias {
+		return
+	}
+	gi, _, ok := c.taintOf(rhs)
+	if !ok || isFormal(gi) {
+		return
+	}
+	if k, _, _ := refKind(t); k == "value" {
+		return
+	}
+	c.derived[name] = gi
+}
+
+// store: `l = r` where l is not a plain identifier.
+func (c *fctx) store(l, r ast.Expr) {
+	gi, _, ok := c.taintOf(r)
+	if !ok || isFormal(gi) {
+		return
+	}
+	// into the same guarded structure: not an escape
+	if lg, _, _, lok := c.rootGuard(l); lok && lg == gi {
+		return
+	}
+	// into a local container: the container becomes derived
+	root := l
+	for {
+		switch x := root.(type) {
+		case *ast.IndexExpr:
+			root = x.X
+			continue
+		case *ast.ParenExpr:
+			root = x.X
+			continue
+		}
+		break
+	}
+	if id, ok := root.(*ast.Ident); ok {
+		if fi := fnInfos[rootFn(c.fn)]; fi != nil {
+			isFormalName := id.Name == fi.recv
+			for _, p := range fi.params {
+				if p == id.Name {
+					isFormalName = true
+				}
+			}
+			if !isFormalName {
+				if _, isAlias := c.aliases[id.Name]; !isAlias {
+					c.derived[id.Name] = gi
+				}
+				return
+			}
+		}
+	}
+	c.escapeOf(r, "store "+c.str(l)+" = "+c.str(r), c.typeOf(l))
+}
+
+func rootFn(fn string) string {
+	if i := strings.Index(fn, "$"); i >= 0 {
+		return fn[:i]
+	}
+	return fn
+}
+
+// escapeOf records that the value of e leaves the critical section (returned, sent, stored elsewhere).
+func (c *fctx) escapeOf(e ast.Expr, what string, declared *T) {
+	gi, rooted, ok := c.taintOf(e)
+	if !ok || isFormal(gi) {
+		return
+	}
+	if guards[gi].kind != kLocked {
+		return
+	}
+	t := c.typeOf(e)
+	if (t == nil || t.e == externalT) && declared != nil {
+		t = declared // the declared type of the result / target the value is converted to
+	}
+	kind := ""
+	// recognised copy shape: append(<fresh>, guarded...)
+	if call, isCall := e.(*ast.CallExpr); isCall {
+		if f, isId := call.Fun.(*ast.Ident); isId && f.Name == "append" && len(call.Args) > 0 {
+			if _, _, firstTainted := c.taintOf(call.Args[0]); !firstTainted {
+				rooted = false
+			}
+		}
+	}
+	kind = classifyRef(t, rooted, 0)
+	c.pos++
+	escapes = append(escapes, escape{fn: c.fn, guard: gi, kind: kind, pos: c.pos, what: what + " : " + func() string {
+		if t == nil {
+			return "?"
+		}
+		return exprStr(t.e)
+	}()})
+}
+
 // ---------------------------------------------------------------- driver
 
 func analyseFunc(p *pkgInfo, fd *ast.FuncDecl) {
@@ -1644,7 +2039,23 @@ func analyseFunc(p *pkgInfo, fd *ast.FuncDecl) {
 	if fd.Recv != nil && len(fd.Recv.List) == 1 {
 		name = recvTypeName(fd.Recv.List[0].Type) + "." + name
 	}
-	c := &fctx{p: p, fn: p.dir + "|" + name, env: map[string]*T{}, aliases: map[string]alias{}}
+	c := &fctx{p: p, fn: p.dir + "|" + name, env: map[string]*T{}, aliases: map[string]alias{}, derived: map[string]int{}}
+	fi := &fnInfo{exported: ast.IsExported(fd.Name.Name)}
+	if fd.Recv != nil && len(fd.Recv.List) == 1 && len(fd.Recv.List[0].Names) == 1 {
+		fi.recv = fd.Recv.List[0].Names[0].Name
+	}
+	if fd.Type.Params != nil {
+		for _, f := range fd.Type.Params.List {
+			if len(f.Names) == 0 {
+				fi.params = append(fi.params, "_")
+			}
+			for _, n := range f.Names {
+				fi.params = append(fi.params, n.Name)
+			}
+		}
+	}
+	fnInfos[c.fn] = fi
+	c.results = resultsOf(p.dir, fd)
 	if fd.Type.Results != nil {
 		var rs []string
 		for _, f := range fd.Type.Results.List {
@@ -1655,6 +2066,14 @@ func analyseFunc(p *pkgInfo, fd *ast.FuncDecl) {
 	c.bindFields(fd.Recv)
 	c.bindFields(fd.Type.Params)
 	c.bindFields(fd.Type.Results)
+	for i, pn := range fi.params {
+		if pn == "_" {
+			continue
+		}
+		if c.aliasType(formalGuard(i), c.env[pn]) && c.env[pn] != nil {
+			c.aliases[pn] = alias{formalGuard(i), ""}
+		}
+	}
 	t := c.block(fd.Body.List)
 	if !t {
 		c.endOfFunc()
@@ -1758,6 +2177,249 @@ func main() {
 		}
 	}
 
+	// ---- interprocedural propagation of locksets (summaries instantiated per calling context)
+	type ctxLock struct {
+		key  string
+		excl bool
+		tok  string
+	}
+	type ctxBind struct {
+		param, guard int
+		tok          string
+	}
+	type context struct {
+		locks []ctxLock
+		binds []ctxBind
+	}
+	ctxKey := func(c context) string { return fmt.Sprintf("%v|%v", c.locks, c.binds) }
+	tokOf := func(fn, base string) string {
+		if base == "" {
+			return "?"
+		}
+		return rootFn(fn) + ":" + base
+	}
+	spawned := map[string]bool{}
+	for _, sp := range spawns {
+		spawned[sp.callee] = true
+	}
+	nCallSites := map[string]int{}
+	for _, cr := range calls {
+		for _, k := range cr.callees {
+			nCallSites[k]++
+		}
+	}
+	allFn := map[string]bool{}
+	for _, a := range accesses {
+		allFn[a.fn] = true
+	}
+	for _, cr := range calls {
+		allFn[cr.fn] = true
+		for _, k := range cr.callees {
+			allFn[k] = true
+		}
+	}
+	isRoot := func(fn string) bool {
+		if i := strings.Index(fn, "$"); i >= 0 {
+			return !strings.HasPrefix(fn[i:], "$defer") // go / stored closures start with nothing held; deferred ones run inside their function
+		}
+		fi := fnInfos[fn]
+		return fi == nil || fi.exported || spawned[fn] || usedAsValue[fn] || nCallSites[fn] == 0
+	}
+	contexts := map[string][]context{}
+	ctxSeen := map[string]map[string]bool{}
+	var work []string
+	addCtx := func(fn string, c context) {
+		if ctxSeen[fn] == nil {
+			ctxSeen[fn] = map[string]bool{}
+		}
+		k := ctxKey(c)
+		if ctxSeen[fn][k] {
+			return
+		}
+		if len(contexts[fn]) >= 24 {
+			problems[fn] = append(problems[fn], "more than 24 calling contexts (recursion while holding a lock?)")
+			touches[fn] = true
+			return
+		}
+		ctxSeen[fn][k] = true
+		contexts[fn] = append(contexts[fn], c)
+		work = append(work, fn)
+	}
+	var fnsSorted []string
+	for fn := range allFn {
+		fnsSorted = append(fnsSorted, fn)
+	}
+	sort.Strings(fnsSorted)
+	for _, fn := range fnsSorted {
+		if isRoot(fn) {
+			addCtx(fn, context{})
+		}
+	}
+	callsOf := map[string][]callRec{}
+	for _, cr := range calls {
+		callsOf[cr.fn] = append(callsOf[cr.fn], cr)
+	}
+	// translation of base tokens at a call site: the caller's actual expression -> the callee's formal name
+	transOf := func(cr callRec, callee string) [][2]string {
+		var tr [][2]string
+		fi := fnInfos[callee]
+		if fi == nil || cr.deferCl {
+			return nil
+		}
+		seen := map[string]bool{}
+		add := func(actual, formal string) {
+			if actual == "" || formal == "" || formal == "_" {
+				return
+			}
+			a := tokOf(cr.fn, actual)
+			if seen[a] {
+				return
+			}
+			seen[a] = true
+			tr = append(tr, [2]string{a, tokOf(callee, formal)})
+		}
+		add(cr.recv, fi.recv)
+		for i, a := range cr.args {
+			if i < len(fi.params) {
+				add(a, fi.params[i])
+			}
+		}
+		return tr
+	}
+	translate := func(tr [][2]string, callee, tok string) string {
+		for _, p := range tr {
+			if p[0] == tok {
+				return p[1]
+			}
+		}
+		if strings.HasPrefix(tok, rootFn(callee)+":") {
+			return "?" // a name of an outer activation of the callee: never matched
+		}
+		return tok
+	}
+	push := func(cr callRec, c context, callee string) context {
+		tr := transOf(cr, callee)
+		var n context
+		if cr.deferCl {
+			// a deferred closure runs inside its function: same objects, same bindings
+			n.locks = append(n.locks, c.locks...)
+			n.binds = append(n.binds, c.binds...)
+			return n
+		}
+		for _, h := range cr.held {
+			n.locks = append(n.locks, ctxLock{h.key, h.excl, translate(tr, callee, tokOf(cr.fn, h.base))})
+		}
+		for _, l := range c.locks {
+			n.locks = append(n.locks, ctxLock{l.key, l.excl, translate(tr, callee, l.tok)})
+		}
+		np := 0
+		if fi := fnInfos[callee]; fi != nil {
+			np = len(fi.params)
+		}
+		for _, b := range cr.binds {
+			if b.param >= np {
+				continue
+			}
+			if b.fromParam < 0 {
+				n.binds = append(n.binds, ctxBind{b.param, b.guard, translate(tr, callee, tokOf(cr.fn, b.base))})
+			} else {
+				for _, cb := range c.binds {
+					if cb.param == b.fromParam {
+						n.binds = append(n.binds, ctxBind{b.param, cb.guard, translate(tr, callee, cb.tok)})
+						break
+					}
+				}
+			}
+		}
+		return n
+	}
+	for iter := 0; len(work) > 0 && iter < 200000; iter++ {
+		fn := work[0]
+		work = work[1:]
+		for _, c := range contexts[fn] {
+			for _, cr := range callsOf[fn] {
+				for _, cal := range cr.callees {
+					addCtx(cal, push(cr, c, cal))
+				}
+			}
+		}
+	}
+	// relevance: functions with obligations (direct accesses, or accesses through a parameter that some context binds)
+	boundParam := func(fn string, param int) bool {
+		for _, c := range contexts[fn] {
+			for _, b := range c.binds {
+				if b.param == param {
+					return true
+				}
+			}
+		}
+		return false
+	}
+	var kept []access
+	relevant := map[string]bool{}
+	for _, a := range accesses {
+		if a.param > 0 && !boundParam(a.fn, a.param-1) {
+			continue
+		}
+		kept = append(kept, a)
+		relevant[a.fn] = true
+	}
+	accesses = kept
+	for changed := true; changed; {
+		changed = false
+		for _, cr := range calls {
+			if relevant[cr.fn] {
+				continue
+			}
+			for _, k := range cr.callees {
+				if relevant[k] {
+					relevant[cr.fn] = true
+					changed = true
+					break
+				}
+			}
+		}
+	}
+
+	// what has to be in the table: functions with obligations, functions entered with something held / bound, and
+	// callers that hold a lock (or hand over guarded data) at a call into such a function
+	hasObl := map[string]bool{}
+	for _, a := range accesses {
+		hasObl[a.fn] = true
+	}
+	nonEmptyCtx := func(fn string) bool {
+		for _, c := range contexts[fn] {
+			if len(c.locks) > 0 || len(c.binds) > 0 {
+				return true
+			}
+		}
+		return false
+	}
+	emitFn := map[string]bool{}
+	for fn := range relevant {
+		if hasObl[fn] || nonEmptyCtx(fn) {
+			emitFn[fn] = true
+		}
+	}
+	edgeKept := func(cr callRec, cal string) bool {
+		if !relevant[cr.fn] || !relevant[cal] {
+			return false
+		}
+		if !(hasObl[cal] || nonEmptyCtx(cal)) {
+			return false
+		}
+		return len(cr.held) > 0 || len(cr.binds) > 0 || nonEmptyCtx(cr.fn) || cr.deferCl
+	}
+	for _, cr := range calls {
+		for _, cal := range cr.callees {
+			if edgeKept(cr, cal) {
+				emitFn[cr.fn] = true
+				emitFn[cal] = true
+			}
+		}
+	}
+	relevant = emitFn
+
 	// ---- numbering
 	mutexID := map[string]int{}
 	var mutexNames []string
@@ -1804,6 +2466,16 @@ func main() {
 		fnID[k] = len(fnNames)
 		return len(fnNames)
 	}
+	tokID := map[string]int{"?": 0}
+	var tokNames []string
+	tid := func(t string) int {
+		if id, ok := tokID[t]; ok {
+			return id
+		}
+		tokNames = append(tokNames, t)
+		tokID[t] = len(tokNames)
+		return len(tokNames)
+	}
 	sort.SliceStable(accesses, func(i, j int) bool {
 		if accesses[i].fn != accesses[j].fn {
 			return accesses[i].fn < accesses[j].fn
@@ -1843,19 +2515,19 @@ func main() {
 	}
 	w("]\n\n")
 
-	w("/-- every access to a designated field: function, field, write?, locks held (mutex, exclusive?, on the same base expression?), position -/\n")
+	w("/-- every access to a designated field: function, field (0 = through parameter `param - 1`, bound by the calling context), write?,\nlocks the function itself holds (mutex, exclusive?, object token), object token of the access, position -/\n")
 	w("def accesses : List Access := [\n")
 	for i, a := range accesses {
 		var hs []string
 		for _, h := range a.held {
-			hs = append(hs, fmt.Sprintf("⟨%d, %v, %v⟩", mid(h.key), h.excl, h.base == a.base))
+			hs = append(hs, fmt.Sprintf("⟨%d, %v, %d⟩", mid(h.key), h.excl, tid(tokOf(a.fn, h.base))))
 		}
 		sep := ","
 		if i == len(accesses)-1 {
 			sep = ""
 		}
-		w("  { fn := %d, guard := %d, write := %v, held := [%s], pos := %d }%s -- %s: %s\n",
-			fid(a.fn), a.guard+1, a.write, strings.Join(hs, ", "), a.pos, sep, a.fn, a.what)
+		w("  { fn := %d, guard := %d, param := %d, write := %v, held := [%s], base := %d, pos := %d }%s -- %s: %s\n",
+			fid(a.fn), a.guard+1, a.param, a.write, strings.Join(hs, ", "), tid(tokOf(a.fn, a.base)), a.pos, sep, a.fn, a.what)
 	}
 	w("]\n\n")
 
@@ -1993,6 +2665,149 @@ func main() {
 	}
 	w("]\n\n")
 
+	// ---- calling contexts, call edges, roots (relevant functions only)
+	var relFns []string
+	for fn := range relevant {
+		relFns = append(relFns, fn)
+	}
+	sort.Strings(relFns)
+	w("/-- calling contexts of every function with obligations (or calling one): locks held by the callers on the way in (in the\ncallee's object tokens) and parameters bound to guarded data. The empty context = called with nothing held. -/\n")
+	w("def contexts : List Ctx := [\n")
+	var clines []string
+	for _, fn := range relFns {
+		for _, c := range contexts[fn] {
+			var ls, bs, lcs []string
+			for _, l := range c.locks {
+				ls = append(ls, fmt.Sprintf("⟨%d, %v, %d⟩", mid(l.key), l.excl, tid(l.tok)))
+				lcs = append(lcs, l.key+"@"+l.tok)
+			}
+			for _, b := range c.binds {
+				bs = append(bs, fmt.Sprintf("⟨%d, %d, %d⟩", b.param, b.guard+1, tid(b.tok)))
+				lcs = append(lcs, fmt.Sprintf("param %d = %s.%s@%s", b.param, guards[b.guard].typ, guards[b.guard].field, b.tok))
+			}
+			clines = append(clines, fmt.Sprintf("  { fn := %d, locks := [%s], binds := [%s] }, -- %s [%s]", fid(fn), strings.Join(ls, ", "), strings.Join(bs, ", "), fn, strings.Join(lcs, "; ")))
+		}
+	}
+	for i, l := range clines {
+		if i == len(clines)-1 {
+			l = strings.Replace(l, " }, -- ", " } -- ", 1)
+		}
+		w("%s\n", l)
+	}
+	w("]\n\n")
+	w("/-- call sites between those functions: locks the caller itself holds at the call, translation of object tokens (the\ncaller's actual receiver / argument -> the callee's formal), tokens that name an outer activation of the callee (poisoned),\narguments that hand guarded data (or a bound parameter of the caller) to a parameter of the callee -/\n")
+	w("def callEdges : List CallEdge := [\n")
+	var elines []string
+	seenEdge := map[string]bool{}
+	for _, cr := range calls {
+		if !relevant[cr.fn] {
+			continue
+		}
+		for _, cal := range cr.callees {
+			if !edgeKept(cr, cal) {
+				continue
+			}
+			var hs, trs, as, pz []string
+			for _, h := range cr.held {
+				hs = append(hs, fmt.Sprintf("⟨%d, %v, %d⟩", mid(h.key), h.excl, tid(tokOf(cr.fn, h.base))))
+			}
+			for _, p := range transOf(cr, cal) {
+				trs = append(trs, fmt.Sprintf("(%d, %d)", tid(p[0]), tid(p[1])))
+			}
+			np := 0
+			if fi := fnInfos[cal]; fi != nil {
+				np = len(fi.params)
+			}
+			if cr.deferCl {
+				as = append(as, "⟨0, 0, 0, 0, true⟩")
+			}
+			for _, b := range cr.binds {
+				if b.param >= np || cr.deferCl {
+					continue
+				}
+				if b.fromParam < 0 {
+					as = append(as, fmt.Sprintf("⟨%d, 0, %d, %d, false⟩", b.param, b.guard+1, tid(tokOf(cr.fn, b.base))))
+				} else {
+					as = append(as, fmt.Sprintf("⟨%d, %d, 0, 0, false⟩", b.param, b.fromParam+1))
+				}
+			}
+			line := fmt.Sprintf("{ caller := %d, callee := %d, held := [%s], trans := [%s], poison := %s, args := [%s] }",
+				fid(cr.fn), fid(cal), strings.Join(hs, ", "), strings.Join(trs, ", "), func() string {
+					if cr.deferCl {
+						return "POISON:-"
+					}
+					return "POISON:" + rootFn(cal)
+				}(), strings.Join(as, ", "))
+			_ = pz
+			if seenEdge[line] {
+				continue
+			}
+			seenEdge[line] = true
+			elines = append(elines, line+" -- "+cr.fn+" -> "+cal)
+		}
+	}
+	// poison lists: every token that names an object of the callee's own scope
+	poisonOf := func(root string) string {
+		var ids []string
+		for i, t := range tokNames {
+			if strings.HasPrefix(t, root+":") {
+				ids = append(ids, fmt.Sprint(i+1))
+			}
+		}
+		return "[" + strings.Join(ids, ", ") + "]"
+	}
+	for i, l := range elines {
+		j := strings.Index(l, "POISON:")
+		k := strings.Index(l[j:], ", args :=")
+		l = l[:j] + poisonOf(l[j+7:j+k]) + l[j+k:]
+		parts := strings.SplitN(l, " -- ", 2)
+		sep := ","
+		if i == len(elines)-1 {
+			sep = ""
+		}
+		w("  %s%s -- %s\n", parts[0], sep, parts[1])
+	}
+	w("]\n\n")
+	w("/-- functions that can be entered with nothing held: exported, started by a go statement, used as a value, closures\nthat are stored or started, or without any call site in the analysed packages -/\n")
+	var rs []string
+	for _, fn := range relFns {
+		if isRoot(fn) {
+			rs = append(rs, fmt.Sprint(fid(fn)))
+		}
+	}
+	w("def roots : List Nat := [%s]\n\n", strings.Join(rs, ", "))
+	w("/-- per relevant function: exported / started by go / used as a value / number of call sites seen -/\n")
+	w("def fnFacts : List FnFact := [\n")
+	for i, fn := range relFns {
+		sep := ","
+		if i == len(relFns)-1 {
+			sep = ""
+		}
+		fi := fnInfos[fn]
+		exp := fi == nil || fi.exported
+		if j := strings.Index(fn, "$"); j >= 0 {
+			exp = !strings.HasPrefix(fn[j:], "$defer")
+		}
+		w("  { fn := %d, exported := %v, spawned := %v, asValue := %v, callSites := %d }%s -- %s\n", fid(fn), exp, spawned[fn], usedAsValue[fn], nCallSites[fn], sep, fn)
+	}
+	w("]\n\n")
+	sort.SliceStable(escapes, func(i, j int) bool {
+		if escapes[i].fn != escapes[j].fn {
+			return escapes[i].fn < escapes[j].fn
+		}
+		return escapes[i].pos < escapes[j].pos
+	})
+	w("/-- references taken out of a guarded structure that leave the function (returned, sent, stored elsewhere): a value copy,\na copied container of values, a pointer to an object with its own lock in the table, an immutable payload — or `raw` (fails) -/\n")
+	w("def escapes : List Escape := [\n")
+	for i, e := range escapes {
+		sep := ","
+		if i == len(escapes)-1 {
+			sep = ""
+		}
+		w("  { fn := %d, guard := %d, kind := EscKind.%s, pos := %d }%s -- %s: %s\n", fid(e.fn), e.guard+1, e.kind, e.pos, sep, e.fn, e.what)
+	}
+	w("]\n\n")
+
 	// problems: only for functions that touch a guarded field or a mutex
 	var pfns []string
 	for fn := range problems {
@@ -2028,6 +2843,15 @@ func main() {
 		w("  %s%s -- %d\n", leanStr(n), sep, i+1)
 	}
 	w("]\n\n")
+	w("def tokenNames : List String := [\n")
+	for i, n := range tokNames {
+		sep := ","
+		if i == len(tokNames)-1 {
+			sep = ""
+		}
+		w("  %s%s -- %d\n", leanStr(n), sep, i+1)
+	}
+	w("]\n\n")
 	w("def fnNames : List String := [\n")
 	for i, n := range fnNames {
 		sep := ","
@@ -2036,12 +2860,32 @@ func main() {
 		}
 		w("  %s%s -- %d\n", leanStr(n), sep, i+1)
 	}
-	w("]\n\nend CV.C18.Gen\n")
+	w("]\n\n")
+	// ---- source text of the functions the synchronisation models (Model/C18SyncProgs.lean) transcribe:
+	// one entry per source line as gofmt prints it, logging / tracing and string texts dropped (harness/skel)
+	w("namespace Src\n\n")
+	const prog = "extract_c18"
+	emitSrc := func(prefix, rel string, fns [][2]string) {
+		f := skel.Parse(prog, rel)
+		for _, fn := range fns {
+			fd := skel.Func(prog, f, fn[0], fn[1])
+			name := prefix + "_" + strings.TrimPrefix(fn[0], "*")
+			if fn[0] == "" {
+				name = prefix
+			}
+			name += "_" + fn[1]
+			b.WriteString(skel.LeanList(name, rel+": "+fn[0]+" "+fn[1], skel.Lines(fd)))
+		}
+	}
+	emitSrc("stateless", "pintracker/stateless/stateless.go", [][2]string{{"", "New"}, {"*Tracker", "opWorker"}, {"*Tracker", "enqueue"}, {"*Tracker", "SetClient"}, {"*Tracker", "Shutdown"}})
+	emitSrc("crdt", "consensus/crdt/consensus.go", [][2]string{{"", "New"}, {"*Consensus", "setup"}, {"*Consensus", "Shutdown"}, {"*Consensus", "SetClient"}, {"*Consensus", "Ready"}, {"*Consensus", "LogPin"}, {"*Consensus", "LogUnpin"}, {"*Consensus", "batchWorker"}})
+	emitSrc("cluster", "cluster.go", [][2]string{{"*Cluster", "run"}, {"*Cluster", "ready"}, {"*Cluster", "Ready"}, {"*Cluster", "Shutdown"}, {"*Cluster", "Done"}, {"*Cluster", "watchPeers"}})
+	w("end Src\n\nend CV.C18.Gen\n")
 	fmt.Print(b.String())
 
 	// human-readable summary on stderr
-	fmt.Fprintf(os.Stderr, "extract_c18: %d accesses, %d edges, %d spawns, %d snapshot builders, %d problem lines, %d mutexes\n",
-		len(accesses), len(eks), len(spawns), len(snapLines), len(plines), len(mutexNames))
+	fmt.Fprintf(os.Stderr, "extract_c18: %d accesses, %d edges, %d spawns, %d snapshot builders, %d problem lines, %d mutexes, %d contexts, %d call edges, %d escapes\n",
+		len(accesses), len(eks), len(spawns), len(snapLines), len(plines), len(mutexNames), len(clines), len(elines), len(escapes))
 	for _, p := range plines {
 		fmt.Fprintln(os.Stderr, "  problem:", p)
 	}
